@@ -60,6 +60,7 @@ func siteKey(p *Prog, in ssa.Instruction, what string, counter map[string]int) s
 
 func runC03(c *Ctx) {
 	sharedDigestRule(c, c.P, "R8", "transports/obfs4")
+	serverHandlerReachesWrapConn(c, c.P, "R9")
 	if !importing {
 		importObls(c, "C10", runC10, "X10", func(k string) bool {
 			return containsAny(k, "(*obfs4Conn).serverHandshake", "parseClientHandshake", "WrapConn", "closeAfterDelay")
